@@ -192,6 +192,46 @@ func (rt *ResultTypeExpr) Finalize() {
 	})
 }
 
+// validateViewNames makes sure that the views named with View("name") on the
+// result type itself and on the attributes listed in its views are defined by
+// the corresponding result types. Finalize and the code generators project the
+// result types using these names and assume they are valid.
+func (rt *ResultTypeExpr) validateViewNames() *eval.ValidationErrors {
+	verr := new(eval.ValidationErrors)
+	defines := func(t *ResultTypeExpr, view string) bool {
+		return view == DefaultView || t.View(view) != nil
+	}
+	if view, ok := rt.AttributeExpr.Meta.Last(ViewMetaKey); ok && !defines(rt, view) {
+		verr.Add(rt, "unknown view %q", view)
+	}
+	for _, v := range rt.Views {
+		obj := AsObject(v.Type)
+		if obj == nil {
+			continue
+		}
+		for _, nat := range *obj {
+			view, ok := nat.Attribute.Meta.Last(ViewMetaKey)
+			if !ok {
+				continue
+			}
+			att := rt.Find(nat.Name)
+			if att == nil {
+				continue
+			}
+			t := att.Type
+			if arr := AsArray(t); arr != nil {
+				if _, isrt := t.(*ResultTypeExpr); !isrt {
+					t = arr.ElemType.Type
+				}
+			}
+			if art, isrt := t.(*ResultTypeExpr); isrt && !defines(art, view) {
+				verr.Add(rt, "view %q: attribute %q uses view %q but type %q does not define it", v.Name, nat.Name, view, art.Name())
+			}
+		}
+	}
+	return verr
+}
+
 // useExplicitView projects the result type using the view explicitly set on the
 // attribute if any.
 func (rt *ResultTypeExpr) useExplicitView() {
